@@ -371,34 +371,40 @@ def run_c09(tier_: str) -> int:
             k = int(tops[0].__api_key__)
             if keys.setdefault(k, m.api) != m.api:
                 res.violation(f"key-shared:{k}", f"API key {k} used by {keys[k]} and {m.api}", {"key": k})
-    # positive half: every module reachable, every entry resolves to the right object
-    for (api, ver, typ), (module, cls) in truth.items():
-        et = EntityType[typ]
-        res.count("entries_verified")
-        try:
-            path = sidx.schema_name_map[api][ver][et]
-            ok = path == f"{module.__name__}:{cls.__qualname__}"
-            ok = ok and index.load_entity_module(api, ver, et) is module
-            ok = ok and index.load_entity_schema(api, ver, et) is cls
-            if typ in ("request", "response"):
-                k = int(cls.__api_key__)
-                ok = ok and sidx.api_key_map[k] == api
-                ok = ok and index.load_payload_module(k, ver, et) is module
-                ok = ok and (index.load_request_schema(k, ver) if typ == "request" else index.load_response_schema(k, ver)) is cls
-            got = index.load_entity_schema(api, ver, et)
-            ok = ok and got.__name__ == cls.__name__ and int(got.__version__) == ver and got.__type__ is et
-            if typ in ("request", "response"):
-                # the two sibling lookups are lookup functions as well
-                other = truth.get((api, ver, "response" if typ == "request" else "request"))
-                sib = index.load_response_from_request(cls) if typ == "request" else index.load_request_from_response(cls)
-                ok = ok and other is not None and sib is other[1]
-        except Exception as exc:  # noqa: BLE001
-            res.violation(f"unreachable:{api}:v{ver}:{typ}", f"{module.__name__} is not reachable through the index: {exc!r}",
-                          {"api": api, "version": ver, "type": typ, "error": traceback.format_exc()})
-            continue
-        if not ok:
-            res.violation(f"wrong-entry:{api}:v{ver}:{typ}", f"index entry for ({api}, {ver}, {typ}) does not resolve to {walk.class_path(cls)}",
-                          {"api": api, "version": ver, "type": typ, "entry": sidx.schema_name_map[api][ver].get(et)})
+    # positive half: every module reachable, every entry resolves to the right object.  It runs twice: before any miss, and once more
+    # after the whole negative half - a lookup that failed must not change what a valid lookup returns afterwards
+    def positive_half(when: str) -> None:
+        for (api, ver, typ), (module, cls) in truth.items():
+            et = EntityType[typ]
+            res.count("entries_verified" if when == "first" else "entries_verified_again_after_misses")
+            try:
+                path = sidx.schema_name_map[api][ver][et]
+                ok = path == f"{module.__name__}:{cls.__qualname__}"
+                ok = ok and index.load_entity_module(api, ver, et) is module
+                ok = ok and index.load_entity_schema(api, ver, et) is cls
+                if typ in ("request", "response"):
+                    k = int(cls.__api_key__)
+                    ok = ok and sidx.api_key_map[k] == api
+                    ok = ok and index.load_payload_module(k, ver, et) is module
+                    ok = ok and (index.load_request_schema(k, ver) if typ == "request" else index.load_response_schema(k, ver)) is cls
+                got = index.load_entity_schema(api, ver, et)
+                ok = ok and got.__name__ == cls.__name__ and int(got.__version__) == ver and got.__type__ is et
+                if typ in ("request", "response"):
+                    # the two sibling lookups are lookup functions as well
+                    other = truth.get((api, ver, "response" if typ == "request" else "request"))
+                    sib = index.load_response_from_request(cls) if typ == "request" else index.load_request_from_response(cls)
+                    ok = ok and other is not None and sib is other[1]
+            except Exception as exc:  # noqa: BLE001
+                res.violation(f"unreachable:{api}:v{ver}:{typ}" + ("" if when == "first" else ":after-misses"),
+                              f"{module.__name__} is not reachable through the index{'' if when == 'first' else ' after earlier lookups of non-existent entities'}: {exc!r}",
+                              {"api": api, "version": ver, "type": typ, "error": traceback.format_exc()})
+                continue
+            if not ok:
+                res.violation(f"wrong-entry:{api}:v{ver}:{typ}" + ("" if when == "first" else ":after-misses"),
+                              f"index entry for ({api}, {ver}, {typ}) does not resolve to {walk.class_path(cls)}{'' if when == 'first' else ' after earlier lookups of non-existent entities'}",
+                              {"api": api, "version": ver, "type": typ, "entry": sidx.schema_name_map[api][ver].get(et)})
+
+    positive_half("first")
     # nothing else: every index entry is in the truth; key map one-to-one
     for api, vmap in sidx.schema_name_map.items():
         for ver, tmap in vmap.items():
@@ -499,6 +505,9 @@ def run_c09(tier_: str) -> int:
         expect_miss("key-near-miss", index.load_response_schema, (k, 0), (UK,))
         expect_miss("key-near-miss", index.load_payload_module, (k, 0, EntityType.request), (UK,))
     nrand = 20000 if tier_ == "quick" else 2000000
+    for odd_name in ("api-versions", "offset-for-leader-epoch", "api_versions_", "api__versions", "ApiVersions", 18, 0, None, b"metadata", 1.5, ("metadata",)):
+        for fn in fns_name:
+            expect_miss("name-separators-or-not-a-string", fn, (odd_name, 0, EntityType.request), (UE,))
     spellings = ["", "index", "errors", "types", "kio.schema.metadata", "metadata.v1", "Metadata", "METADATA", "metadata ", " metadata",
                  "metadata_request", "metadataRequest", "request_header ", "fetch_", "_fetch", "v1", "nested", "request"]
     for _ in range(nrand):
@@ -523,6 +532,7 @@ def run_c09(tier_: str) -> int:
             if name in versions_of:
                 continue
             expect_miss("random-name", rng.choice(fns_name), (name, rng.choice((0, 1, rng.randint(-3, 20))), rng.choice(ets)), (UE,))
+    positive_half("after-misses")
     cold_import_race(res, 5 if tier_ == "quick" else 40)
     index_cold_schedules(res, 24 if tier_ == "quick" else 400)
     res.coverage["miss_probes_by_kind"] = miss_kinds
